@@ -46,6 +46,7 @@ def run(ctx: Ctx):
     raw_arrays(ctx)
     module_state(ctx)
     memoisation(ctx)
+    written_keys_not_read_back(ctx)
     iterators(ctx)
     raw_argument(ctx)
     who_may_call(ctx)
@@ -497,3 +498,32 @@ def memoisation(ctx: Ctx):
     ctx.require_min("functions scanned for process-wide caches", 900)
     if not bad:
         ctx.held("no-shared-cache", "package: every function", "no memoising decorator with a mutable result, no function writes a module-level container", "", "positive control: 3 of 3 recognised")
+
+
+def written_keys_not_read_back(ctx: Ctx):
+    """`subvar_alias` and `datetime_value` are keys the shim WRITES into the caller's dimension dict, in place, when (and
+    only when) `shimmed_dimension_dict` is evaluated.  Code of the shim that READS them from `self._dimension_dict` - the
+    same caller-owned object - sees them or not depending on whether that lazy step (or an earlier cube on the same
+    response) has run: the result depends on the read schedule.  They may be read only from the shimmed copy, i.e.
+    outside the shim (`_build_element_id` gets the shimmed dict by construction)."""
+    ci = ctx.repo.cls("dimension.py", "_ElementIdShim")
+    KEYS = ("subvar_alias", "datetime_value")
+    n, bad = 0, []
+    for m in ci.members.values():
+        for node in ast.walk(m.node):
+            key = None
+            if isinstance(node, ast.Subscript) and isinstance(node.ctx, ast.Load) and isinstance(node.slice, ast.Constant) and node.slice.value in KEYS:
+                key = node.slice.value
+            elif isinstance(node, ast.Call) and isinstance(node.func, ast.Attribute) and node.func.attr == "get" and node.args and isinstance(node.args[0], ast.Constant) and node.args[0].value in KEYS:
+                key = node.args[0].value
+            elif isinstance(node, ast.Compare) and isinstance(node.left, ast.Constant) and node.left.value in KEYS and any(isinstance(o, (ast.In, ast.NotIn)) for o in node.ops):
+                key = node.left.value
+            if key is not None:
+                n += 1
+                bad.append(f"{m.name}: reads '{key}' ({u(node)[:50]})")
+    ctx.count("reads of library-written keys inside the shim", n)
+    where = "dimension.py::_ElementIdShim"
+    if bad:
+        ctx.violated("written-keys-not-read-back", where, bad, "the shim never reads back the keys it writes into the caller's dict", "what is read depends on whether shimmed_dimension_dict (or an earlier cube built from the same response) has already written the key")
+    else:
+        ctx.held("written-keys-not-read-back", where, "no read of 'subvar_alias' / 'datetime_value' inside the shim", "")
